@@ -157,6 +157,15 @@ def run(rep, tier, seed):
             ref = numpy.zeros_like(R); ref[:, :, 0, 0] = c; ref[:, :, 1, 1] = c; ref[:, :, 0, 1] = -s; ref[:, :, 1, 0] = s
             if abs(E - ref).max() > 1e-9 * (1 + abs(ref).max()):
                 rep.violation("expm rotation generator", {"D": D, "P": P, "err": float(abs(E - ref).max())})
+            # the other public entry points of the matrix exponential: every Pade order and the scaling-and-squaring variant
+            Rs = R * 0.125            # (small norm: the low Pade orders are accurate to rounding there)
+            ths = UTPM(th * 0.125)
+            c, s = algopy.cos(ths).data, algopy.sin(ths).data
+            ref = numpy.zeros_like(R); ref[:, :, 0, 0] = c; ref[:, :, 1, 1] = c; ref[:, :, 0, 1] = -s; ref[:, :, 1, 0] = s
+            for nm, call in [("expm_pade(q=%d)" % q_, (lambda M, q_=q_: algopy.expm_pade(M, q_))) for q_ in (5, 7, 9, 13)] + [("expm_higham_2005", algopy.expm_higham_2005)]:
+                Eq = call(UTPM(Rs.copy())).data
+                if abs(Eq - ref).max() > 1e-9 * (1 + abs(ref).max()):
+                    rep.violation(nm + " rotation generator", {"D": D, "P": P, "err": float(abs(Eq - ref).max())})
         except Exception as ex_:
             rep.violation("expm raises " + type(ex_).__name__, {"what": repr(ex_)[-300:]})
         rep.case(("expm-rel", it), nontrivial=True)
